@@ -8,7 +8,7 @@ from collections import defaultdict
 
 from ..cli import C, find_config_dir, _check_deprecated_description_cleaning, _print_deprecation_warnings
 from ..config_loader import load_config, load_supplemental_sources
-from ..merchant_utils import get_all_rules, get_transforms
+from ..merchant_utils import get_all_rules, get_transforms, apply_transforms
 from ..analyzer import parse_amex, parse_boa, parse_generic_csv
 
 
@@ -148,7 +148,7 @@ def cmd_discover(args):
         print()
 
         for raw_desc, stats in sorted_descs:
-            pattern = suggest_pattern(raw_desc)
+            pattern = suggest_pattern(_matched_description(stats['examples'][0], raw_desc, transforms))
             merchant = suggest_merchant_name(raw_desc)
             print(f"{pattern},{merchant},CATEGORY,SUBCATEGORY  # ${stats['total']:.2f} ({stats['count']} txns)")
 
@@ -156,7 +156,7 @@ def cmd_discover(args):
         import json
         output = []
         for raw_desc, stats in sorted_descs:
-            pattern = suggest_pattern(raw_desc)
+            pattern = suggest_pattern(_matched_description(stats['examples'][0], raw_desc, transforms))
             merchant = suggest_merchant_name(raw_desc)
             # Add refund tag suggestion for negative amounts
             suggested_tags = ['refund'] if stats['has_negative'] else []
@@ -187,7 +187,7 @@ def cmd_discover(args):
         print()
 
         for i, (raw_desc, stats) in enumerate(sorted_descs, 1):
-            pattern = suggest_pattern(raw_desc)
+            pattern = suggest_pattern(_matched_description(stats['examples'][0], raw_desc, transforms))
             merchant = suggest_merchant_name(raw_desc)
 
             print(f"{i}. {raw_desc[:60]}")
@@ -207,6 +207,27 @@ def cmd_discover(args):
             print()
 
     _print_deprecation_warnings(config)
+
+
+def _matched_description(txn, raw_desc, transforms):
+    """The text rules are matched against for this transaction: its raw description after
+    the rules file's field transforms. A suggested pattern has to be built from that text -
+    one built from the raw description (say "PAYPAL *SPOTIFY" when a transform strips the
+    "PAYPAL *") would never match."""
+    if not transforms:
+        return raw_desc
+    txn_date = txn.get('date')
+    probe = {
+        'description': raw_desc,
+        'amount': txn.get('amount') or 0,
+        'field': dict(txn['field']) if txn.get('field') else txn.get('field'),
+        'source': txn.get('source'),
+        'location': txn.get('location'),
+    }
+    if txn_date:
+        probe['date'] = txn_date.date() if hasattr(txn_date, 'date') else txn_date
+    apply_transforms(probe, transforms)
+    return probe.get('description') or raw_desc
 
 
 def suggest_pattern(description):
